@@ -103,7 +103,7 @@ def mids_at(rec, t):
     """the data handler's mid prices recorded while the event at `t` was being processed"""
     out = {}
     for r in rec.get('reads', []):
-        if r[0] == t and r[1] == t and r[3] in ('mid', 'bid_ask', 'bid', 'ask'):
+        if r[0] == t and r[1] == t and r[3] == 'mid':
             out[r[2]] = r[4]
     return out
 
